@@ -383,6 +383,48 @@ def cand_line(tok, obj, meas):
     return f"{tok}:{q(obj)}:{ql(meas)}"
 
 
+def checkpoint(archive, how):
+    """Continue the history on a copy of the archive (a pickle round trip, `copy.deepcopy`): every public read-only
+    property is read first (what is cached on first read must survive the copy), the original is dropped.  A copy
+    that does not behave like the uninterrupted archive -- cached views that pickling turns into independent arrays,
+    state left out of `__getstate__` -- then breaks the lock step with the model and the oracles of the property."""
+    import pickle
+    for name in ("boundaries", "lower_bounds", "upper_bounds", "centroids", "stats", "best_elite", "empty", "cells",
+                 "interval_size", "dims", "capacity", "occupied", "occupied_list", "field_list", "dtypes"):
+        try:
+            getattr(archive, name)
+        except Exception:       # noqa: BLE001  (not every archive has every property; some raise when empty)
+            pass
+    st = getattr(archive, "_store", None)
+    if st is not None:
+        for name in ("occupied", "occupied_list", "capacity", "field_list"):
+            try:
+                getattr(st, name)
+            except Exception:   # noqa: BLE001
+                pass
+    if how == "deepcopy":
+        return copy.deepcopy(archive)
+    if how == "copy-chain":
+        return pickle.loads(pickle.dumps(copy.deepcopy(archive)))
+    return pickle.loads(pickle.dumps(archive))
+
+
+def sprinkle(rng, case, rows_fn=None, p_ckpt=0.3, p_bad=0.25, prox_noobj_ok=False):
+    """With some probability: checkpoints (continue on a pickled / deep-copied archive) and rejected calls (fault
+    injection, judged by the oracles of the property the run serves: what the archive holds and reports AFTER a
+    correctly rejected call must still satisfy it) at random positions of a generated history."""
+    ops = case["ops"]
+    if rng.random() < p_ckpt and ops:
+        for _ in range(rng.choice([1, 1, 2])):
+            ops.insert(rng.randint(1, len(ops)), {"op": "ckpt", "how": rng.choice(["pickle", "pickle", "deepcopy", "copy-chain"])})
+    if rows_fn is not None and rng.random() < p_bad and ops:
+        import faultlib
+        for _ in range(rng.choice([1, 1, 2])):
+            ops.insert(rng.randint(0, max(0, len(ops) - 1)),
+                       faultlib.gen_fault(rng, case.get("layout", ""), rows_fn, prox_noobj_ok=prox_noobj_ok))
+    return case
+
+
 class Run:
     """One lock-step run of a case: implementation, Lean model and oracles."""
 
@@ -1006,6 +1048,9 @@ class Run:
                         self.impl_add(self.twin, [op["row"]], False)
                 elif kind == "bad":
                     f = self.do_bad(op, where)
+                elif kind == "ckpt":
+                    self.archive = checkpoint(self.archive, op.get("how", "pickle"))
+                    self.bump(f"ckpt:{op.get('how', 'pickle')}")
                 elif kind == "clear":
                     f = self.do_clear(where)
                     self.bump("clear")
@@ -1224,6 +1269,12 @@ def gen_case(rng, profile="mixed", kinds=("grid", "cvt", "sb"), cma=False, dtype
     elif case["kind"] != "sb" and rng.random() < 0.3:
         case["lr"] = "1"          # explicit learning_rate=1 with threshold_min=-inf is the elitist setting too
     case["ops"] = gen_history(rng, case, profile)
+    tok = [2 * 10**6]
+
+    def rows_fn():
+        tok[0] += 1
+        return [tok[0], dyadic(rng, -8, 8, 2), gen_meas(rng, case)]
+    sprinkle(rng, case, rows_fn)
     return case
 
 
